@@ -163,6 +163,9 @@ func init() {
 		}
 		return Iface{}
 	})
+	reg("fmt.Sprint", func(m *Machine, fn *ssa.Function, a []Value) Value {
+		return fromTerm(m.sprint(sliceElems(a[0].(Slice))))
+	})
 	// fatih/color: stdout is not a terminal, so output is uncoloured
 	reg("github.com/fatih/color.New", func(m *Machine, fn *ssa.Function, a []Value) Value {
 		return Pointer{C: m.newCell(&Native{Kind: "color"})}
